@@ -210,7 +210,7 @@ CHECKS = {
         "in a function, global-declared in a function and captured by a closure; the harness compares "
         "MRO, bases, metaclass, user attributes, where the name is bound and the results of a fixed "
         "call script against the class CPython builds; also after an earlier class statement of the same "
-        "name in the same scope and as one alternative of an if/else. Quick: all size-<=1 sets + every 9th "
+        "name in the same scope and as one alternative of an if/else. Quick: half of the size-<=1 sets + every 20th "
         "size-2 set. Host dimension: a stride of the product and every member kind as whole programs.",
         "Class-creation hooks that look at the namespace and class metadata are outside the property.",
         "DESIGN.md section 3, C12"),
